@@ -36,7 +36,7 @@ def progress_scenarios(ctx, n, start):
             sc = core.base(run, cap=rng.choice([2, 4, 16]), pool=rng.choice(["std", "low_memory"]), workers=rng.choice([1, 2]),
                            batch=rng.choice([1, 2]), timeout_ms=rng.choice([10, 30]), single=rng.random() < 0.3,
                            lines=core.random_lines(rng, nev, rng.choice([1, 2]), rng.choice([["a"], ["a", "b"]]),
-                                                   ["H", "C", "C", "P", "H"]))
+                                                   rng.choice([["H", "C", "C", "P", "H"], ["H", "N", "C", "N"], ["H", "N"]])))
         elif fam == 2:    # partially filled batches: only the flush timer can hand them over
             sc = core.base(run, cap=16, workers=rng.choice([1, 2, 3]), batch=rng.choice([4, 7, 16]), flush_ms=rng.choice([5, 20, 50]),
                            lines=core.random_lines(rng, nev, rng.choice([1, 2]), ["a", "b"], ["P", "P", "D"]))
